@@ -82,7 +82,16 @@ impl Bind {
     pub(crate) fn mix(mut self, other: &Self) -> Option<Self> {
         for (k, v) in other.bound_generics.iter() {
             if let Some(existing) = self.bound_generics.get(k) {
-                let new_bind = existing.common_type(v)?;
+                // a parameter that was only matched against itself (a same-named type parameter of
+                // the enclosing generic function) is not bound yet
+                let is_self = |t: &Arc<XType>| matches!(t.as_ref(), XType::XGeneric(n) if n == k);
+                let new_bind = if is_self(existing) {
+                    v.clone()
+                } else if is_self(v) {
+                    existing.clone()
+                } else {
+                    existing.common_type(v)?
+                };
                 self.bound_generics.insert(*k, new_bind);
             } else {
                 self.bound_generics.insert(*k, v.clone());
@@ -514,7 +523,6 @@ impl XType {
                 }
                 Some(bind)
             }
-            (Self::XGeneric(ref a), Self::XGeneric(ref b)) if a == b => Some(Bind::new()),
             (_, Self::XUnknown) => Some(Bind::new()),
             (Self::XGeneric(ref a), _) => Some(Bind::from([(*a, other.clone())])),
             (Self::XUnknown, _) => Some(Bind::new()),
